@@ -5,6 +5,7 @@ import KoordVerif.Proofs.C19Dev
 import KoordVerif.Proofs.C19ExtDevVF
 import KoordVerif.Proofs.C19Rsv
 import KoordVerif.Proofs.C19ExtRsvCache
+import KoordVerif.Proofs.C19ExtQuota
 import KoordVerif.Proofs.C19ExtEvents
 /-
 C19 — scheduler allocation state survives a restart unchanged.  Property theorems.
@@ -686,7 +687,85 @@ theorem rsv_cache_rebuild_order_independent (h : List Rsv.Ev) (wf : Rsv.wfHist h
   Rsv.cache_rebuild_order_independent_hist h wf hR₁ hP₁ hR₂ hP₂
 
 
-/- SECTION Q (elasticquota theorems) TEMPORARILY DETACHED while Proofs/C19ExtQuota*.lean are re-proved after /repo fix 7265fb2
-   changed the model (ext-c19, re-attached from build/c19x/props_sectionQ.txt as soon as the proofs build). -/
+/-! ## Q. elasticquota: the quota a pod is charged to (model Model/C19Quota.lean + C19QuotaSpec.lean, proofs
+Proofs/C19ExtQuota*.lean) -/
+
+/-- **quota_rebuilt_eq_live**: for EVERY live history of the plugin (quota add / update / delete, ReplaceQuotas, pod
+    add / update / delete, Reserve / Unreserve, migration ticks) that satisfies the decidable hypotheses `okHist`
+    (props/C19.json assumptions; the driver evaluates them on every strict generated history) and EVERY delivery `d`
+    of the final objects to a fresh scheduler with `isDelivery` (every final quota object reaches OnQuotaAdd or the
+    store before ReplaceQuotas, ReplaceQuotas before the first pod, every alive pod delivered at least once -
+    duplicates allowed - and when a pod is delivered its resolution is already the final one), the rebuilt ledger
+    equals the live ledger after its next migration tick: same known quotas, same (quota, pod) charges, same
+    assigned flags, same self request and self used of every quota. -/
+theorem quota_rebuilt_eq_live (hist d : List Quota.Op) (h : Quota.okHist hist = true)
+    (hd : Quota.isDelivery (Quota.run {} hist) (Quota.worldAfter hist) d = true) :
+    Quota.LedgerEq (Quota.run {} (hist ++ [.migrate])) (Quota.run {} (d ++ [.migrate])) :=
+  Quota.quota_rebuilt_eq_live hist d h hd
+
+/-- the rebuilt ledger does not depend on the delivery order nor on duplicates. -/
+theorem quota_rebuild_order_independent (hist d1 d2 : List Quota.Op) (h : Quota.okHist hist = true)
+    (h1 : Quota.isDelivery (Quota.run {} hist) (Quota.worldAfter hist) d1 = true)
+    (h2 : Quota.isDelivery (Quota.run {} hist) (Quota.worldAfter hist) d2 = true) :
+    Quota.LedgerEq (Quota.run {} (d1 ++ [.migrate])) (Quota.run {} (d2 ++ [.migrate])) :=
+  Quota.quota_rebuild_order_independent' hist d1 d2 h h1 h2
+
+/-- nothing taken is free: after the tick the live ledger (hence the rebuilt one) is the from-scratch ledger of the
+    objects - every alive pod is cached exactly by the group it resolves to, assigned iff bound, and self request /
+    self used are the sums over those pods. -/
+theorem quota_live_canon (hist : List Quota.Op) (h : Quota.okHist hist = true) :
+    Quota.Canon (Quota.run {} (hist ++ [.migrate])) (Quota.worldAfter hist) :=
+  Quota.quota_live_canon hist h
+
+/-- open finding `C19:quota-double-charge-after-namespace-unclaim` on the model (which agrees with the code on
+    this history): quota 3 claims namespace 9, the unlabelled bound pod 1 lives there, quota 3 gives the claim up,
+    the pod's next update files it under the default group while quota 3 keeps it; a restart charges only the
+    default group.  The history violates `okHist` (a quota update moved a cached pod between two groups). -/
+theorem quota_double_charge_after_namespace_unclaim_counterexample :
+    let q3 : Quota.QObj := { name := 3, own := false, nss := [9] }
+    let q3' : Quota.QObj := { name := 3, own := false, nss := [] }
+    let p : Quota.PodObj := { id := 1, label := 0, ns := 9, req := 1000, node := true, term := false, rv := 1 }
+    let p' : Quota.PodObj := { p with rv := 2 }
+    let hist : List Quota.Op := [.qput q3, .padd p, .qput q3', .pupd p p']
+    let d : List Quota.Op := [.qput q3', .padd p']
+    Quota.okHist hist = false ∧
+    Quota.isDelivery (Quota.run {} hist) (Quota.worldAfter hist) d = true ∧
+    Quota.hasE (Quota.run {} (hist ++ [.migrate])) 3 1 = true ∧ Quota.hasE (Quota.run {} (hist ++ [.migrate])) 1 1 = true ∧
+    Quota.getC (Quota.run {} (hist ++ [.migrate])).used 3 = 1000 ∧
+    Quota.hasE (Quota.run {} (d ++ [.migrate])) 3 1 = false ∧ Quota.hasE (Quota.run {} (d ++ [.migrate])) 1 1 = true := by
+  decide
+
+/-- finding `C19:quota-stale-cached-pod-migration`, REPAIRED in /repo by 7265fb2 (the cached object follows the
+    updates): pod labelled 7 (missing) is held by the default group, its label changes to 8 (missing), quota 8
+    appears; the migration tick now resolves the refreshed object and moves the pod to quota 8, exactly what a
+    restart rebuilds (before the fix the pod stayed in the default group; the harness keeps the fingerprint armed). -/
+theorem quota_stale_cached_pod_migration_repaired :
+    let q8 : Quota.QObj := { name := 8, own := false, nss := [] }
+    let p : Quota.PodObj := { id := 1, label := 7, ns := 9, req := 500, node := true, term := false, rv := 1 }
+    let p' : Quota.PodObj := { p with label := 8, rv := 2 }
+    let hist : List Quota.Op := [.padd p, .pupd p p', .qput q8]
+    let d : List Quota.Op := [.qput q8, .padd p']
+    Quota.isDelivery (Quota.run {} hist) (Quota.worldAfter hist) d = true ∧
+    Quota.hasE (Quota.run {} (hist ++ [.migrate])) 8 1 = true ∧ Quota.hasE (Quota.run {} (hist ++ [.migrate])) 1 1 = false ∧
+    Quota.getC (Quota.run {} (hist ++ [.migrate])).used 8 = 500 ∧ Quota.getC (Quota.run {} (hist ++ [.migrate])).used 1 = 0 ∧
+    Quota.hasE (Quota.run {} (d ++ [.migrate])) 8 1 = true ∧ Quota.hasE (Quota.run {} (d ++ [.migrate])) 1 1 = false := by
+  decide
+
+/-- a bound pod that turns Succeeded keeps its used live and is not charged after a restart (excluded by `okHist`;
+    koord-scheduler's pod informer filters terminal phases, so the handlers see a delete instead). -/
+theorem quota_terminated_keeps_used_counterexample :
+    let pt : Quota.PodObj := { id := 1, label := 0, ns := 9, req := 100, node := true, term := false, rv := 1 }
+    let pt2 : Quota.PodObj := { pt with term := true, rv := 2 }
+    let hist : List Quota.Op := [.padd pt, .pupd pt pt2]
+    let d : List Quota.Op := [.padd pt2]
+    Quota.okHist hist = false ∧ Quota.isDelivery (Quota.run {} hist) (Quota.worldAfter hist) d = true ∧
+    Quota.getC (Quota.run {} (hist ++ [.migrate])).used 1 = 100 ∧ Quota.getC (Quota.run {} (d ++ [.migrate])).used 1 = 0 :=
+  Quota.quota_terminated_keeps_used_counterexample
+
+/-- the hypotheses are satisfiable on a non-trivial history (3 quotas, pod before its quota -> parked -> migrated,
+    Reserve + bind, namespace-annotation and own-namespace pods, deletes, a quota delete) and two deliveries. -/
+example : Quota.okHist Quota.Ex.hist = true := by decide
+example : Quota.isDelivery (Quota.run {} Quota.Ex.hist) (Quota.worldAfter Quota.Ex.hist) Quota.Ex.deliv = true := by decide
+
 
 end KoordVerif.C19
